@@ -593,7 +593,17 @@ func RandPerm(rng *rand.Rand, n int) []int { return rng.Perm(n) }
 
 // DuplicateVoteEvidence builds the ABCI evidence that validator i double-signed at the last committed height.
 func (c *Chain) DuplicateVoteEvidence(i int) abci.Evidence {
+	return c.DuplicateVoteEvidenceAt(i, 0)
+}
+
+// DuplicateVoteEvidenceAt: the double-signing happened `back` blocks before the last committed one (evidence
+// reaches a chain late; stake that started unbonding after the infraction is still slashed).
+func (c *Chain) DuplicateVoteEvidenceAt(i int, back int64) abci.Evidence {
 	v := c.ValSet.Validators[i%len(c.ValSet.Validators)]
+	h := c.Height - back
+	if _, ok := c.HdrTime[h]; !ok || h < 1 {
+		h = c.Height
+	}
 	return abci.Evidence{Type: abci.EvidenceType_DUPLICATE_VOTE, Validator: abci.Validator{Address: v.Address, Power: v.VotingPower},
-		Height: c.Height, Time: c.HdrTime[c.Height], TotalVotingPower: c.ValSet.TotalVotingPower()}
+		Height: h, Time: c.HdrTime[h], TotalVotingPower: c.ValSet.TotalVotingPower()}
 }
